@@ -14,9 +14,7 @@ for prop, P in registry.PROPS.items():
             for h in vlib.parse_harnesses(dict(registry.UNITS[u], name=u)):
                 if prop not in h["props"]:
                     continue
-                if h.get("fallback"):
-                    if tier == "thorough":
-                        n += 1
+                if h.get("fallback") or h["tier"] == "manual":
                     continue
                 if tier == "thorough" or h["tier"] == "quick":
                     n += 1
